@@ -61,6 +61,10 @@ def runLine (line : String) : String :=
   match kind with
   | 'T' => runTerminal rest
   | 'M' => runMulti rest
+  | 'K' =>
+    -- one canvas drawn by several screens: a canvas is a value, so every screen behaves as in its own `S` script
+    let j := " || ".intercalate ((multiScripts rest).map fun sc => (Screen.run 'S' sc).getD "?")
+    s!"{j} ## {j}"
   | 'D' => runLookup rest
   | 'd' => runLookup rest     -- the same lookup made in constant evaluation (the executor's compile-time tables)
   | 'N' => runEncodeCs rest
